@@ -82,6 +82,29 @@ def model_to_args(c: FN, model):
     return args
 
 
+def standin_bounded(prop, name=None, extra_args=()):
+    """bounded stand-in: the executable relation of the property evaluated on the real code over the
+    enumerated corpus of /verif/standin (stated bound: --n cases per class, seeded)."""
+    def run(pc):
+        n = 120 if pc.tier == "quick" else 1200
+        env = dict(os.environ)
+        env["PYTHONPATH"] = VERIF
+        env.setdefault("PYVC_REPO", front.REPO)
+        cmd = [VENV_PY, "-m", "standin.run", prop, "--n", str(n), "--seed", str(pc.seed)] + list(extra_args)
+        p = subprocess.run(cmd, capture_output=True, text=True, cwd=VERIF, env=env, timeout=3000)
+        if p.returncode != 0:
+            raise RuntimeError(f"stand-in {prop} crashed: {p.stderr[-600:]}")
+        r = json.loads(p.stdout)
+        fails = []
+        for f in r.get("failures", []):
+            fails.append({"match": f.get("match"), "concrete_call": {"class": f.get("class"), "how": f.get("how"), "repr": f.get("repr")},
+                          "observed": f.get("detail")})
+        return {"name": name or f"standin:{prop}", "label": "bounded", "bound": f"{n} cases per class, seed {pc.seed}",
+                "cases": r.get("cases", 0), "distinct_nontrivial": r.get("distinct_nontrivial", 0),
+                "n_failures": r.get("n_failures", 0), "samples": r.get("samples", [])[:3], "failures": fails}
+    return run
+
+
 class PropertyCheck:
     def __init__(self, prop, tier, seed):
         self.prop = prop
